@@ -19,6 +19,7 @@ import (
 	"go/constant"
 	"go/token"
 	"go/types"
+	"strconv"
 	"strings"
 
 	"golang.org/x/tools/go/ssa"
@@ -34,6 +35,8 @@ const (
 	Struct       // a struct value, Fields by index
 	Tuple        // multiple results
 	Ptr          // pointer to a tracked cell (+ field path), or (Cell < 0) to the symbolic location T
+	List         // a slice or array whose elements are known (Elems), e.g. a table of the program read from its literal
+	MapV         // a map built on this path (or by the package initialiser) whose entries are tracked: Cell is its id
 )
 
 // Value is an abstract value. T is the term of a value that is not a constant: equal terms denote equal values
@@ -58,6 +61,8 @@ func (v Value) String() string {
 		return fmt.Sprintf("struct%v", v.Fields)
 	case Tuple:
 		return fmt.Sprintf("tuple%v", v.Elems)
+	case List:
+		return fmt.Sprintf("list%v", v.Elems)
 	case Ptr:
 		if v.Cell >= 0 {
 			return fmt.Sprintf("&cell%d%v", v.Cell, v.Path)
@@ -89,6 +94,10 @@ func (v Value) Term() string {
 		return "&" + v.T
 	case Struct:
 		return fmt.Sprintf("struct%v", v.Fields)
+	case List:
+		return fmt.Sprintf("list%v", v.Elems)
+	case MapV:
+		return v.T
 	}
 	return v.T
 }
@@ -98,6 +107,8 @@ func C(c constant.Value) Value       { return Value{K: Const, C: c} }
 func Int(i int64) Value              { return C(constant.MakeInt64(i)) }
 func Bool(b bool) Value              { return C(constant.MakeBool(b)) }
 func StructOf(f map[int]Value) Value { return Value{K: Struct, Fields: f} }
+func Str(x string) Value             { return C(constant.MakeString(x)) }
+func ListOf(e []Value) Value         { return Value{K: List, Elems: e} }
 
 // Obj is a non-nil reference to an untracked object named t (a parameter, a receiver).
 func Obj(t string) Value { return Value{K: NonNil, T: t} }
@@ -106,7 +117,7 @@ func (v Value) IsNilKnown() (isNil, known bool) {
 	switch v.K {
 	case Nil:
 		return true, true
-	case NonNil, Ptr:
+	case NonNil, Ptr, List, MapV:
 		return false, true
 	}
 	return false, false
@@ -163,14 +174,24 @@ type Eval struct {
 	Follow func(callee *ssa.Function) bool
 	// WantCall: calls for which an Event is recorded (default none).
 	WantCall func(callee *ssa.Function) bool
+	// Global gives the value a package-level variable holds (e.g. a table read from its literal); default unknown.
+	Global func(g *ssa.Global) (Value, bool)
+	// MaxVisits bounds how often one path may enter the same block of one call (default 3: loops over unknown data
+	// are cut; raise it to unroll a loop over a table whose bounds are constants).
+	MaxVisits int
 
-	paths int
-	nsym  int
+	paths     int
+	nsym      int
+	globals   map[string]*ssa.Global
+	initVals  map[string]Value
+	initMaps  []map[string]Value
+	initCells []Value
 }
 
 type state struct {
 	cells  []Value
-	sym    map[string]Value // symbolic memory: location term -> value
+	maps   []map[string]Value // tracked maps: key term -> value ("\x00open" marks a map that also got non-constant keys)
+	sym    map[string]Value   // symbolic memory: location term -> value
 	epoch  int
 	events []Event
 	conds  []Cond
@@ -182,6 +203,13 @@ func (s *state) clone() *state {
 	copy(n.cells, s.cells)
 	for k, v := range s.sym {
 		n.sym[k] = v
+	}
+	for _, m := range s.maps {
+		c := make(map[string]Value, len(m))
+		for k, v := range m {
+			c[k] = v
+		}
+		n.maps = append(n.maps, c)
 	}
 	return n
 }
@@ -222,7 +250,16 @@ func (e *Eval) Run(fn *ssa.Function, args []Value) []Outcome {
 		e.MaxPaths = 512
 	}
 	e.paths = 0
-	rs := e.call(fn, args, &state{sym: map[string]Value{}}, 0)
+	st0 := &state{sym: map[string]Value{}}
+	for _, m := range e.initMaps {
+		c := make(map[string]Value, len(m))
+		for k, v := range m {
+			c[k] = v
+		}
+		st0.maps = append(st0.maps, c)
+	}
+	st0.cells = append(st0.cells, e.initCells...)
+	rs := e.call(fn, args, st0, 0)
 	var outs []Outcome
 	for _, r := range rs {
 		o := r.out
@@ -280,6 +317,10 @@ func (e *Eval) val(fr *frame, v ssa.Value) Value {
 	case *ssa.Function:
 		return Value{K: NonNil, T: "func " + x.String()}
 	case *ssa.Global:
+		if e.globals == nil {
+			e.globals = map[string]*ssa.Global{}
+		}
+		e.globals["global "+x.String()] = x
 		return Value{K: Ptr, Cell: -1, T: "global " + x.String()}
 	case *ssa.Builtin:
 		return Value{K: NonNil, T: "builtin " + x.Name()}
@@ -293,12 +334,27 @@ func (e *Eval) val(fr *frame, v ssa.Value) Value {
 func (e *Eval) load(st *state, p Value) Value {
 	if p.K == Ptr && p.Cell >= 0 && p.Cell < len(st.cells) {
 		v := st.cells[p.Cell]
-		for _, i := range p.Path {
+		for k, i := range p.Path {
+			if v.K == List && i >= 0 && i < len(v.Elems) {
+				v = v.Elems[i]
+				continue
+			}
 			if v.K != Struct {
+				if v.T != "" {
+					// a field of a value that is only known as a term
+					t := v.T
+					for _, j := range p.Path[k:] {
+						t += fmt.Sprintf(".f%d", j)
+					}
+					return Value{K: Unknown, T: t}
+				}
 				return e.fresh("load of untracked field")
 			}
 			f, ok := v.Fields[i]
 			if !ok {
+				if v.T != "" {
+					return Value{K: Unknown, T: fmt.Sprintf("%s.f%d", v.T, i)}
+				}
 				return e.fresh("load of unset field")
 			}
 			v = f
@@ -312,6 +368,21 @@ func (e *Eval) load(st *state, p Value) Value {
 	if v, ok := st.sym[loc]; ok {
 		return v
 	}
+	if v, ok := e.initVals[loc]; ok {
+		st.sym[loc] = v
+		return v
+	}
+	if e.Global != nil && e.globals != nil {
+		if g, ok := e.globals[p.T]; ok {
+			if v, ok := e.Global(g); ok {
+				st.sym[loc] = v
+				return v
+			}
+		}
+	}
+	if v, ok := st.sym[loc]; ok {
+		return v
+	}
 	v := Value{K: Unknown, T: fmt.Sprintf("L(%s)@%d", strings.TrimPrefix(loc, "&"), st.epoch)}
 	st.sym[loc] = v
 	return v
@@ -320,6 +391,11 @@ func (e *Eval) load(st *state, p Value) Value {
 func setPath(v Value, path []int, nv Value) Value {
 	if len(path) == 0 {
 		return nv
+	}
+	if v.K == List && path[0] >= 0 && path[0] < len(v.Elems) {
+		out := Value{K: List, Elems: append([]Value(nil), v.Elems...)}
+		out.Elems[path[0]] = setPath(out.Elems[path[0]], path[1:], nv)
+		return out
 	}
 	out := Value{K: Struct, Fields: map[int]Value{}}
 	if v.K == Struct {
@@ -432,7 +508,7 @@ func refKind(t types.Type) bool {
 func (e *Eval) block(fr *frame, b *ssa.BasicBlock, prev *ssa.BasicBlock, from int, st *state, depth int) []result {
 	if from == 0 {
 		fr.visits[b]++
-		if fr.visits[b] > 3 {
+		if mv := e.MaxVisits; (mv == 0 && fr.visits[b] > 3) || (mv > 0 && fr.visits[b] > mv) {
 			return []result{{Outcome{Incomplete: "loop bound in " + fr.fn.Name()}, st}}
 		}
 		if prev != nil {
@@ -470,6 +546,13 @@ func (e *Eval) block(fr *frame, b *ssa.BasicBlock, prev *ssa.BasicBlock, from in
 			st.cells = append(st.cells, e.fresh("fresh cell"))
 			if _, isStruct := x.Type().(*types.Pointer).Elem().Underlying().(*types.Struct); isStruct {
 				st.cells[len(st.cells)-1] = Value{K: Struct, Fields: map[int]Value{}}
+			}
+			if ar, isArr := x.Type().(*types.Pointer).Elem().Underlying().(*types.Array); isArr && ar.Len() <= 4096 {
+				elems := make([]Value, ar.Len())
+				for i := range elems {
+					elems[i] = zeroOf(ar.Elem())
+				}
+				st.cells[len(st.cells)-1] = Value{K: List, Elems: elems}
 			}
 			fr.env[x] = Value{K: Ptr, Cell: len(st.cells) - 1}
 		case *ssa.FieldAddr:
@@ -549,11 +632,47 @@ func (e *Eval) block(fr *frame, b *ssa.BasicBlock, prev *ssa.BasicBlock, from in
 			}
 		case *ssa.MakeClosure:
 			fr.env[x] = Value{K: NonNil, T: "closure " + x.Fn.String()}
-		case *ssa.MakeMap, *ssa.MakeSlice, *ssa.MakeChan:
+		case *ssa.MakeMap:
+			e.nsym++
+			st.maps = append(st.maps, map[string]Value{})
+			fr.env[x] = Value{K: MapV, Cell: len(st.maps) - 1, T: fmt.Sprintf("make#%d", e.nsym)}
+		case *ssa.MakeSlice, *ssa.MakeChan:
 			e.nsym++
 			fr.env[x.(ssa.Value)] = Value{K: NonNil, T: fmt.Sprintf("make#%d", e.nsym)}
 		case *ssa.Slice:
 			base := e.val(fr, x.X)
+			if base.K == Ptr && base.Cell >= 0 {
+				if arr := e.load(st, base); arr.K == List {
+					base = arr
+				}
+			}
+			if base.K == List && x.Max == nil {
+				l, h, ok := 0, len(base.Elems), true
+				if x.Low != nil {
+					l, ok = constIndex(e.val(fr, x.Low), len(base.Elems)+1)
+				}
+				if ok && x.High != nil {
+					h, ok = constIndex(e.val(fr, x.High), len(base.Elems)+1)
+				}
+				if ok && l <= h {
+					fr.env[x] = Value{K: List, Elems: append([]Value(nil), base.Elems[l:h]...)}
+					break
+				}
+			}
+			if base.K == Const && base.C.Kind() == constant.String && x.Max == nil {
+				str := constant.StringVal(base.C)
+				l, h, ok := 0, len(str), true
+				if x.Low != nil {
+					l, ok = constIndex(e.val(fr, x.Low), len(str)+1)
+				}
+				if ok && x.High != nil {
+					h, ok = constIndex(e.val(fr, x.High), len(str)+1)
+				}
+				if ok && l <= h {
+					fr.env[x] = Str(str[l:h])
+					break
+				}
+			}
 			lo, hi := "", ""
 			if x.Low != nil {
 				lo = e.val(fr, x.Low).Term()
@@ -564,12 +683,58 @@ func (e *Eval) block(fr *frame, b *ssa.BasicBlock, prev *ssa.BasicBlock, from in
 			fr.env[x] = Value{K: Unknown, T: fmt.Sprintf("slice(%s,%s,%s)", base.Term(), lo, hi)}
 		case *ssa.IndexAddr:
 			base, idx := e.val(fr, x.X), e.val(fr, x.Index)
+			if base.K == Ptr && base.Cell >= 0 {
+				// pointer to an array held in a tracked cell: a pointer to the element inside the cell
+				if arr := e.load(st, base); arr.K == List {
+					if i, ok := constIndex(idx, len(arr.Elems)); ok {
+						fr.env[x] = Value{K: Ptr, Cell: base.Cell, Path: append(append([]int(nil), base.Path...), i)}
+						break
+					}
+				}
+			}
+			if i, ok := constIndex(idx, len(base.Elems)); ok && base.K == List {
+				st.cells = append(st.cells, base.Elems[i])
+				fr.env[x] = Value{K: Ptr, Cell: len(st.cells) - 1}
+				break
+			}
 			fr.env[x] = Value{K: Ptr, Cell: -1, T: fmt.Sprintf("%s[%s]", strings.TrimPrefix(base.Term(), "&"), idx.Term())}
 		case *ssa.Index:
 			base, idx := e.val(fr, x.X), e.val(fr, x.Index)
+			if i, ok := constIndex(idx, len(base.Elems)); ok && base.K == List {
+				fr.env[x] = base.Elems[i]
+				break
+			}
+			if base.K == Const && base.C.Kind() == constant.String {
+				str := constant.StringVal(base.C)
+				if i, ok := constIndex(idx, len(str)); ok {
+					fr.env[x] = Int(int64(str[i]))
+					break
+				}
+			}
 			fr.env[x] = Value{K: Unknown, T: fmt.Sprintf("%s[%s]", base.Term(), idx.Term())}
 		case *ssa.Lookup:
 			m, k := e.val(fr, x.X), e.val(fr, x.Index)
+			if m.K == MapV && m.Cell < len(st.maps) && k.K == Const {
+				if _, open := st.maps[m.Cell]["\x00open"]; !open {
+					v, has := st.maps[m.Cell][k.Term()]
+					if !has {
+						v = zeroOf(x.X.Type().Underlying().(*types.Map).Elem())
+					}
+					if x.CommaOk {
+						fr.env[x] = Value{K: Tuple, Elems: []Value{v, Bool(has)}}
+					} else {
+						fr.env[x] = v
+					}
+					break
+				}
+			}
+			if m.K == Const && m.C.Kind() == constant.String && !x.CommaOk {
+				str := constant.StringVal(m.C)
+				if i, ok := constIndex(k, len(str)); ok {
+					fr.env[x] = Int(int64(str[i]))
+					break
+				}
+			}
 			val := Value{K: Unknown, T: fmt.Sprintf("%s[%s]", m.Term(), k.Term())}
 			if x.CommaOk {
 				okv := Value{K: Unknown, T: fmt.Sprintf("has(%s,%s)@%d", m.Term(), k.Term(), st.epoch)}
@@ -579,6 +744,13 @@ func (e *Eval) block(fr *frame, b *ssa.BasicBlock, prev *ssa.BasicBlock, from in
 				fr.env[x] = val
 			}
 		case *ssa.MapUpdate:
+			if m, k := e.val(fr, x.Map), e.val(fr, x.Key); m.K == MapV && m.Cell < len(st.maps) {
+				if k.K == Const {
+					st.maps[m.Cell][k.Term()] = e.val(fr, x.Value)
+				} else {
+					st.maps[m.Cell]["\x00open"] = Value{}
+				}
+			}
 			st.events = append(st.events, Event{Kind: "mapupdate", Args: []Value{e.val(fr, x.Map), e.val(fr, x.Key), e.val(fr, x.Value)}})
 		case *ssa.TypeAssert:
 			a := e.val(fr, x.X)
@@ -700,6 +872,20 @@ func (e *Eval) doCall(fr *frame, x *ssa.Call, st *state, depth int) []result {
 	if b, ok := x.Call.Value.(*ssa.Builtin); ok {
 		switch b.Name() {
 		case "len", "cap":
+			if len(args) == 1 {
+				switch {
+				case args[0].K == Nil:
+					return []result{{Outcome{Rets: []Value{Int(0)}}, st}}
+				case args[0].K == List:
+					return []result{{Outcome{Rets: []Value{Int(int64(len(args[0].Elems)))}}, st}}
+				case args[0].K == MapV && args[0].Cell < len(st.maps):
+					if _, open := st.maps[args[0].Cell]["\x00open"]; !open {
+						return []result{{Outcome{Rets: []Value{Int(int64(len(st.maps[args[0].Cell])))}}, st}}
+					}
+				case args[0].K == Const && args[0].C.Kind() == constant.String:
+					return []result{{Outcome{Rets: []Value{Int(int64(len(constant.StringVal(args[0].C))))}}, st}}
+				}
+			}
 			return []result{{Outcome{Rets: []Value{{K: Unknown, T: fmt.Sprintf("%s(%s)", b.Name(), argTerms())}}}, st}}
 		case "append":
 			return []result{{Outcome{Rets: []Value{{K: NonNil, T: fmt.Sprintf("append(%s)", argTerms())}}}, st}}
@@ -732,6 +918,9 @@ func (e *Eval) doCall(fr *frame, x *ssa.Call, st *state, depth int) []result {
 			return []result{{Outcome{Rets: []Value{res}}, st}}
 		}
 	}
+	if res, ok := foldPure(callee.String(), args); ok {
+		return []result{{Outcome{Rets: res}, st}}
+	}
 	if len(callee.Blocks) == 0 || depth >= e.MaxDepth || (e.Follow != nil && !e.Follow(callee)) {
 		// an uninterpreted function of its arguments (and of the state of the heap: the epoch)
 		t := fmt.Sprintf("%s(%s)@%d", callee.String(), argTerms(), st.epoch)
@@ -750,4 +939,120 @@ func (e *Eval) doCall(fr *frame, x *ssa.Call, st *state, depth int) []result {
 		return []result{{Outcome{Rets: e.unknownResults(x, t)}, st}}
 	}
 	return e.call(callee, args, st, depth+1)
+}
+
+func constIndex(v Value, n int) (int, bool) {
+	if v.K != Const || v.C.Kind() != constant.Int {
+		return 0, false
+	}
+	i, ok := constant.Int64Val(v.C)
+	if !ok || i < 0 || int(i) >= n {
+		return 0, false
+	}
+	return int(i), true
+}
+
+// foldPure folds calls of a few pure standard-library functions whose arguments are all constants.
+func foldPure(name string, args []Value) ([]Value, bool) {
+	strs := make([]string, len(args))
+	for i, a := range args {
+		if a.K != Const || a.C.Kind() != constant.String {
+			return nil, false
+		}
+		strs[i] = constant.StringVal(a.C)
+	}
+	switch name {
+	case "strings.HasPrefix":
+		if len(strs) == 2 {
+			return []Value{Bool(strings.HasPrefix(strs[0], strs[1]))}, true
+		}
+	case "strings.HasSuffix":
+		if len(strs) == 2 {
+			return []Value{Bool(strings.HasSuffix(strs[0], strs[1]))}, true
+		}
+	case "strings.Contains":
+		if len(strs) == 2 {
+			return []Value{Bool(strings.Contains(strs[0], strs[1]))}, true
+		}
+	case "strings.Index":
+		if len(strs) == 2 {
+			return []Value{Int(int64(strings.Index(strs[0], strs[1])))}, true
+		}
+	case "strings.TrimSpace":
+		if len(strs) == 1 {
+			return []Value{Str(strings.TrimSpace(strs[0]))}, true
+		}
+	case "strconv.Atoi":
+		if len(strs) == 1 {
+			n, err := strconv.Atoi(strs[0])
+			if err != nil {
+				return []Value{Int(0), {K: NonNil, T: "strconv error"}}, true
+			}
+			return []Value{Int(int64(n)), {K: Nil}}, true
+		}
+	}
+	return nil, false
+}
+
+// zeroOf: the zero value of a type.
+func zeroOf(t types.Type) Value {
+	switch u := t.Underlying().(type) {
+	case *types.Basic:
+		switch {
+		case u.Info()&types.IsBoolean != 0:
+			return Bool(false)
+		case u.Info()&types.IsString != 0:
+			return Str("")
+		case u.Info()&types.IsNumeric != 0:
+			return Int(0)
+		}
+	case *types.Struct:
+		return Value{K: Struct, Fields: map[int]Value{}, T: "zero"}
+	case *types.Array:
+		if u.Len() <= 4096 {
+			el := make([]Value, u.Len())
+			for i := range el {
+				el[i] = zeroOf(u.Elem())
+			}
+			return Value{K: List, Elems: el}
+		}
+	}
+	return Value{K: Nil}
+}
+
+// Inits evaluates the initialiser of a package (its synthetic init function: the package-level variables with their
+// literals, and the init functions of the source) and remembers what the package-level variables hold afterwards, so
+// that later evaluations see the tables of the program (spelling tables, keyword maps) as known values. Variables
+// whose value is not the same on every path of the initialiser stay unknown.
+func (e *Eval) Inits(pkg *ssa.Package) {
+	init := pkg.Func("init")
+	if init == nil || len(init.Blocks) == 0 {
+		return
+	}
+	sub := &Eval{MaxDepth: 3, MaxPaths: 64, MaxVisits: 5000}
+	sub.Follow = func(fn *ssa.Function) bool {
+		return fn.Pkg == pkg && fn.Name() != "init" || fn.Pkg == pkg && strings.HasPrefix(fn.Name(), "init#")
+	}
+	sub.Global = func(g *ssa.Global) (Value, bool) {
+		if g.Name() == "init$guard" {
+			return Bool(false), true
+		}
+		return Value{}, false
+	}
+	rs := sub.call(init, nil, &state{sym: map[string]Value{}}, 0)
+	if len(rs) != 1 || rs[0].out.Incomplete != "" || rs[0].out.Panics {
+		return
+	}
+	st := rs[0].st
+	if e.initVals == nil {
+		e.initVals = map[string]Value{}
+	}
+	for loc, v := range st.sym {
+		if strings.HasPrefix(loc, "&global ") {
+			// maps are kept by value: their entries are copied into the seed state of later runs
+			e.initVals[loc] = v
+		}
+	}
+	e.initMaps = append([]map[string]Value(nil), st.maps...)
+	e.initCells = append([]Value(nil), st.cells...)
 }
